@@ -100,9 +100,15 @@ def make_plan(seed: int, tier: str, opts: dict) -> dict:
                     model["conns"][ci]["dist"] = c_dist
                 if c_delay is not None:
                     model["conns"][ci]["delay"] = c_delay
+        before = copy.deepcopy(model["nodes"])
         sp._repair(model)
         for i, nd in enumerate(model["nodes"]):
             spec["nodes"][i]["advance"] = nd["advance"]
+            if (nd["dist"], nd["delay"]) != (before[i]["dist"], before[i]["delay"]):
+                # the repair of rule 7 (a zero-latency cycle created by the history gets a positive computation delay) is itself a
+                # configuration call of the history, so that model and nodes keep describing the same configuration
+                nd["delay"] = nd["delay"] if nd["delay"] is not None else float(onp.float32(nd["dist"][1]))
+                hist.append(["node_set_delay", i, nd["dist"], nd["delay"]])
         if sp.in_S(spec) is None and (sp.in_S(model) is None or (big and "expected comp delay" in (sp.in_S(model) or ""))):
             break
     loop = None
